@@ -222,6 +222,13 @@ def install_threading(reg, hook_getter):
         eng.emit("cv_notify", cond=recv)
         return NONE
 
+    def cv_notify_all(eng, recv, args, result):
+        must_hold(eng, recv, "notify_all")
+        eng.state.ghost["notified:%d" % recv.oid] = True
+        eng.state.ghost["notified_all:%d" % recv.oid] = True      # every waiter is woken, not just one
+        eng.emit("cv_notify", cond=recv)
+        return NONE
+
     def lk_acquire(eng, recv, args, result):
         lock = lock_of(eng, recv)
         hook = hook_getter(eng)
@@ -249,7 +256,7 @@ def install_threading(reg, hook_getter):
     reg.add_class(ClassSpec(LOCK, fields={}, env_methods=dict(lockm)))
     condm = dict(lockm)
     condm.update({"wait": EnvSpec(returns=None, effect=cv_wait), "notify": EnvSpec(returns=None, effect=cv_notify),
-                  "notify_all": EnvSpec(returns=None, effect=cv_notify)})
+                  "notify_all": EnvSpec(returns=None, effect=cv_notify_all)})
     reg.add_class(ClassSpec(COND, fields={"lock": Obj(LOCK)}, env_methods=condm))
     reg.externals["threading.Lock"] = new_lock
     reg.externals["threading.RLock"] = new_lock
